@@ -8,6 +8,7 @@ H3A = (('post_create', 'async'), ('pre_recycle', 'sync'), ('post_recycle', 'asyn
 H6 = (('post_create', 'sync'), ('post_create', 'async'), ('pre_recycle', 'async'), ('pre_recycle', 'sync'), ('post_recycle', 'sync'), ('post_recycle', 'async'))
 OE = ('ok', 'err'); OEP = ('ok', 'err', 'pending'); OEPP = ('ok', 'err', 'pending', 'panic'); OEPS = ('ok', 'err', 'pending', 'stuck'); ALLO = ('ok', 'err', 'pending', 'stuck', 'panic')
 
+import os
 META = {}
 
 
@@ -282,7 +283,7 @@ def jobs_for(pid, tier, seed):
         for k in range(2 if q else 8): J.append({'name': f'translation validation, unmanaged ({40 if q else 100} traces, offset {k * 1000})', 'kind': 'validate_unmanaged',
                                                  'cfg': {'traces': 40 if q else 100, 'offset': k * 1000}, 'crates': ['deadpool']})
     for i, j in enumerate(J):
-        j['seed'] = seed; j['tier'] = tier; j['budget'] = 150 if q else 1500
+        j['seed'] = seed; j['tier'] = tier; j['budget'] = int(os.environ['VERIF_BUDGET_S']) if os.environ.get('VERIF_BUDGET_S') else (150 if q else 1500)
     return J
 
 
